@@ -23,12 +23,15 @@ template <typename T>
 struct is_nothrow_swappable;
 
 template <typename T>
+inline constexpr bool is_swappable_v = is_swappable<T>::value;
+
+template <typename T>
     requires(etl::is_move_constructible_v<T> && etl::is_move_assignable_v<T>)
 constexpr auto swap(T& a, T& b)
     noexcept(etl::is_nothrow_move_constructible_v<T> && etl::is_nothrow_move_assignable_v<T>) -> void;
 
 template <typename T, etl::size_t N>
-    requires(etl::is_swappable<T>::value)
+    requires(etl::is_swappable_v<T>)
 constexpr auto swap(T (&a)[N], T (&b)[N]) noexcept(etl::is_nothrow_swappable<T>::value) -> void;
 
 // swap(declval<T>(), declval<U>()) is not valid
